@@ -8,7 +8,7 @@ rnd, src, log, notes = sys.argv[1], sys.argv[2], sys.argv[3], json.load(open(sys
 root = '/verif/seeded'
 caught = {}
 cur = None
-for line in open(log):
+for line in open(log, errors='replace'):
     m = re.match(r'### (\S+)', line)
     if m:
         cur = m.group(1); caught.setdefault(cur, {}); continue
